@@ -543,11 +543,16 @@ def history_run(h):
     directed = h["directed"]
     shared = geff_spec.GeffMetadata(geff_version="1.0.0", directed=directed, node_props_metadata={}, edge_props_metadata={})
     out = []
+    def want_of(nodes, edges):
+        """graph JSON of (id, attrs) / (u, v, attrs) lists; the properties are the attribute names some element carries"""
+        n_names = sorted({k for _, d in nodes for k in d})
+        e_names = sorted({k for _, _, d in edges for k in d})
+        return {"directed": directed, "nodes": [n for n, _ in nodes], "edges": [[u, v] for u, v, _ in edges],
+                "node_props": [[nm, "dense", [None if nm not in d else cell_json(np.asarray(d[nm])) for _, d in nodes]] for nm in n_names],
+                "edge_props": [[nm, "dense", [None if nm not in d else cell_json(np.asarray(d[nm])) for _, _, d in edges]] for nm in e_names]}
+
     for k, st in enumerate(h["steps"]):
         nodes, edges = st["nodes"], st["edges"]          # nodes: [[id, {attr: value}]], edges: [[u, v, {attr: value}]]
-        want = {"directed": directed, "nodes": [n for n, _ in nodes], "edges": [[u, v] for u, v, _ in edges],
-                "node_props": [[nm, "dense", [None if nm not in d else cell_json(np.asarray(d[nm])) for _, d in nodes]] for nm in st["node_names"]],
-                "edge_props": [[nm, "dense", [None if nm not in d else cell_json(np.asarray(d[nm])) for _, _, d in edges]] for nm in st["edge_names"]]}
         ob = {"step": k, "writer": st["writer"], "write": None}
         out.append(ob)
         with R.StoreCtx("mem") as store:
@@ -556,18 +561,51 @@ def history_run(h):
                     G = nx.DiGraph() if directed else nx.Graph()
                     G.add_nodes_from((n, dict(d)) for n, d in nodes)
                     G.add_edges_from((u, v, dict(d)) for u, v, d in edges)
+                    # the object's own history: removals and re-insertions (insertion order != id order)
+                    for op in st.get("ops", []):
+                        if op[0] == "remove_node" and op[1] in G:
+                            G.remove_node(op[1])
+                        elif op[0] == "add_node":
+                            G.add_node(op[1], **op[2])
+                        elif op[0] == "remove_edge" and G.has_edge(op[1], op[2]):
+                            G.remove_edge(op[1], op[2])
+                        elif op[0] == "add_edge" and op[1] in G and op[2] in G and op[1] != op[2]:
+                            G.add_edge(op[1], op[2], **op[3])
+                    # the graph as the library's own API shows it at write time
+                    want = want_of([(n, dict(d)) for n, d in G.nodes(data=True)], [(u, v, dict(d)) for u, v, d in G.edges(data=True)])
                     geff.write(G, store, metadata=shared, zarr_format=st["fmt"], structure_validation=st["validate"])
                 elif st["writer"] == "rustworkx":
                     G = rx.PyDiGraph() if directed else rx.PyGraph()
                     idx = G.add_nodes_from([dict(d) for _, d in nodes])
                     rxid = {n: i for (n, _), i in zip(nodes, idx)}
                     G.add_edges_from([(rxid[u], rxid[v], dict(d)) for u, v, d in edges])
+                    # the object's own history: index holes (removed nodes), nodes added afterwards, edges removed / added
+                    for op in st.get("ops", []):
+                        if op[0] == "remove_node" and op[1] in rxid:
+                            G.remove_node(rxid.pop(op[1]))
+                        elif op[0] == "add_node" and op[1] not in rxid:
+                            rxid[op[1]] = G.add_node(dict(op[2]))
+                        elif op[0] == "remove_edge" and op[1] in rxid and op[2] in rxid and G.has_edge(rxid[op[1]], rxid[op[2]]):
+                            G.remove_edge(rxid[op[1]], rxid[op[2]])
+                        elif op[0] == "add_edge" and op[1] in rxid and op[2] in rxid and op[1] != op[2] \
+                                and not G.has_edge(rxid[op[1]], rxid[op[2]]) and not G.has_edge(rxid[op[2]], rxid[op[1]]):
+                            G.add_edge(rxid[op[1]], rxid[op[2]], dict(op[3]))
+                    if st.get("node_id_dict", True):
+                        idd = {i: n for n, i in rxid.items()}
+                        name = lambda i: idd[i]       # noqa: E731
+                    else:
+                        idd = None                    # ids are the rustworkx indices, holes included
+                        name = lambda i: i            # noqa: E731
+                    want = want_of([(name(i), dict(G[i])) for i in G.node_indices()],
+                                   [(name(u), name(v), dict(d)) for u, v, d in G.weighted_edge_list()])
                     geff.write(G, store, metadata=shared, zarr_format=st["fmt"], structure_validation=st["validate"],
-                               node_id_dict={i: n for n, i in rxid.items()})
+                               node_id_dict=idd)
                 else:
+                    want = want_of(nodes, edges)
+                    n_names = [nm for nm, _k, _r in want["node_props"]]
+                    e_names = [nm for nm, _k, _r in want["edge_props"]]
                     write_dicts(store, [(n, dict(d)) for n, d in nodes], [((u, v), dict(d)) for u, v, d in edges],
-                                st["node_names"], st["edge_names"], shared, zarr_format=st["fmt"],
-                                structure_validation=st["validate"])
+                                n_names, e_names, shared, zarr_format=st["fmt"], structure_validation=st["validate"])
                 ob["write"] = "ok"
             except BaseException as e:  # noqa: BLE001
                 ob["write"] = C01.exc_class(e)
@@ -647,8 +685,29 @@ def history_cases(rng, n):
             # only names that some element carries are properties of the graph
             n_used = [nm for nm in n_names if any(nm in d for _, d in nodes)]
             e_used = [nm for nm in e_names if edges]
-            steps.append({"writer": rng.choice(["networkx", "rustworkx", "write_dicts"]), "nodes": nodes, "edges": edges,
-                          "node_names": n_used, "edge_names": e_used, "fmt": rng.choice([2, 3]), "validate": rng.random() < 0.7})
+            step = {"writer": rng.choice(["networkx", "rustworkx", "rustworkx", "write_dicts"]), "nodes": nodes, "edges": edges,
+                    "node_names": n_used, "edge_names": e_used, "fmt": rng.choice([2, 3]), "validate": rng.random() < 0.7}
+            if step["writer"] != "write_dicts" and nn >= 2 and rng.random() < 0.7:
+                # the graph object has a history of its own before it is written
+                ops = []
+                victims = rng.sample(ids[:-1], rng.randint(1, min(2, nn - 1)))       # not the last one: leaves an index hole
+                for vct in victims:
+                    ops.append(["remove_node", vct])
+                fresh = [x for x in range(40, 60)]
+                if rng.random() < 0.6:
+                    ops.append(["add_node", rng.choice(victims) if rng.random() < 0.5 else fresh.pop(), {nm: value(nm, 7) for nm in n_names[:2]}])
+                if rng.random() < 0.4:
+                    ops.append(["add_node", fresh.pop(), {}])
+                if edges and rng.random() < 0.4:
+                    ops.append(["remove_edge", edges[0][0], edges[0][1]])
+                if rng.random() < 0.5:
+                    u, v = rng.sample(ids, 2)
+                    ops.append(["add_edge", u, v, {nm: value(nm, u + v) for nm in e_names}])
+                rng.shuffle(ops)
+                step["ops"] = ops
+            if step["writer"] == "rustworkx":
+                step["node_id_dict"] = rng.random() < 0.5
+            steps.append(step)
         out.append({"directed": directed, "steps": steps, "origin": "history", "direction": "history"})
     return out
 
@@ -800,8 +859,10 @@ def run(ck: common.Check):
                "backend (networkx, rustworkx on every simple graph; spatial-graph on a stream in its domain), the graph each "
                "adapter shows compared with the denoted graph; node ids in arbitrary order (permutations of 0..N-1, descending, "
                "interleaved, sparse); node and edge properties sharing names (same/different dtype, fixed/var-length). "
-               "Histories: 2-3 graphs written through geff.write (networkx, rustworkx) / write_dicts with ONE GeffMetadata "
-               "object, every written store validated and decoded. Direction 3: stores with one injected defect. "
+               "Histories: 2-3 graphs written through geff.write (networkx, rustworkx with/without node_id_dict) / write_dicts "
+               "with ONE GeffMetadata object; the graph objects have a history of their own (nodes removed -> rustworkx index "
+               "holes, nodes re-inserted / added later, edges removed / added) and are observed through the library's own API at "
+               "write time; every written store validated and decoded. Direction 3: stores with one injected defect. "
                "non-trivial = at least one node or property")
     check_document_names(ck)
     base = [c for c in C01.rotate_layouts(C01.exhaustive(ck.quick)) + C01.special_cases() if C01.wf_case(c)]
@@ -1036,7 +1097,9 @@ def run(ck: common.Check):
                     ck.corr_broken("C02:lean-decoder-vs-python-decoder(history)", h, R.strip_width(ob.get("py_decode")), canon_graph(a["graph"]))
         if good:
             continue
-        key = "C02:history-shared-metadata" if last["step"] > 0 else "C02:graph-writer-output-does-not-denote-the-graph"
+        meta_related = last["write"] != "ok" or last.get("validate") != "ok" or "declares/holds" in (last.get("diff") or "")
+        key = ("C02:history-shared-metadata" if last["step"] > 0 and meta_related
+               else "C02:graph-writer-output-does-not-denote-the-graph")
         what = (f"{len(h['steps'])} graphs written through geff.write/write_dicts with one GeffMetadata object: step {last['step']} "
                 f"({last['writer']}, structure_validation={h['steps'][last['step']]['validate']}): "
                 + (f"the write raised {last['write']}: {last.get('msg')}" if last["write"] != "ok" else
